@@ -104,6 +104,8 @@ type H struct {
 	Nodes  []*NodeRT
 
 	RootFilter FilterSpec
+	RootSwitch bool // the root filter is a stateful user object (FlipRoot changes what it accepts)
+	rootSF     *StatefulFilter
 	RootPred   func(Spec) bool
 	Period     time.Duration
 
@@ -170,7 +172,16 @@ func (h *H) Start() {
 		func() { b.Context(h.Ctx) },
 		func() { b.Log(h.Log) },
 		func() { b.Client(h.Srv) },
-		func() { b.Filter(h.RootFilter.Build()) },
+		func() {
+			if h.RootSwitch {
+				// the controller's filter is an object of the application whose
+				// answers depend on state the application changes at run time
+				h.rootSF = &StatefulFilter{cur: h.RootFilter.Build()}
+				b.Filter(h.rootSF)
+				return
+			}
+			b.Filter(h.RootFilter.Build())
+		},
 		func() {
 			if early {
 				lb.RefreshPeriod(h.Period)
@@ -647,9 +658,26 @@ func (h *H) handler(first *NodeRT) kcache.Handler {
 	slot := &handlerSlot{n: first}
 	first.hslot = slot
 	hv := h.handlerFor(slot)
+	if first.ID%3 == 1 {
+		// the application's own implementation of the Handler interface (a
+		// decorator around its callbacks), not a value made by BuildHandler()
+		detsim.Count("probe:hand-written-handler-type")
+		hv = &userHandler{inner: hv}
+	}
 	first.hval = hv
 	return hv
 }
+
+// userHandler: a Handler implemented by the application.
+type userHandler struct {
+	inner kcache.Handler
+	calls int
+}
+
+func (u *userHandler) OnInitialize(objs []metav1.Object) { u.calls++; u.inner.OnInitialize(objs) }
+func (u *userHandler) OnCreate(obj metav1.Object)        { u.calls++; u.inner.OnCreate(obj) }
+func (u *userHandler) OnUpdate(obj metav1.Object)        { u.calls++; u.inner.OnUpdate(obj) }
+func (u *userHandler) OnDelete(obj metav1.Object)        { u.calls++; u.inner.OnDelete(obj) }
 
 // handlerSlot: the monitor a handler value currently reports for.
 type handlerSlot struct{ n *NodeRT }
@@ -807,6 +835,15 @@ func (h *H) Refilter(n *NodeRT, f FilterSpec) error {
 type StatefulFilter struct{ cur filter.Filter }
 
 func (s *StatefulFilter) Accept(o metav1.Object) bool { return s.cur.Accept(o) }
+
+// FlipRoot changes what the controller-level filter accepts (RootSwitch): the
+// next relist is what brings the cache in line.
+func (h *H) FlipRoot(f FilterSpec) {
+	h.rootSF.cur = f.Build()
+	h.RootFilter = f
+	h.RootPred = f.Pred()
+	detsim.Count("probe:controller-filter-changed-its-mind")
+}
 
 // filterFor: the library filter a filtered node is created with - a fresh
 // value built from the term, or (NextStateful) the node's own stateful object.
